@@ -40,23 +40,53 @@ Section Main.
 
   Notation run := (run_def urljoin float_of_str lower_ext r strict probes base).
   Notation wf_dev := (wf_dev urljoin float_of_str lower_ext base).
+  Notation wf_desc := (wf_desc urljoin float_of_str lower_ext base).
   Notation mirror_dev := (mirror_dev urljoin float_of_str lower_ext strict probes base).
 
+  Lemma wf_desc_parts d :
+    wf_desc d = true ->
+    wf_tree urljoin float_of_str lower_ext base d = true /\ shared_ok urljoin base (all_services d) = true.
+  Proof.
+    unfold Spec.wf_desc, wf_world. intros H. apply andb_true_iff in H as [H1 H2].
+    apply andb_true_iff in H2 as [H2 _]. split; assumption.
+  Qed.
+
+  (* the strict sub-domain (every service has its own SCPD URL) *)
+  Lemma wf_dev_desc d : wf_dev d = true -> wf_desc d = true.
+  Proof. unfold Spec.wf_dev. intros H. now apply andb_true_iff in H as [H _]. Qed.
   Lemma wf_dev_parts d :
     wf_dev d = true ->
     wf_tree urljoin float_of_str lower_ext base d = true /\
     NoDup (map (scpd_url urljoin base) (all_services d)).
   Proof.
-    unfold Spec.wf_dev, wf_world. intros H. apply andb_true_iff in H as [H1 H2].
-    apply andb_true_iff in H2 as [H2 _]. split; [assumption | now apply nodupb_NoDup].
+    intros H. split; [now apply wf_desc_parts, wf_dev_desc|].
+    unfold Spec.wf_dev in H. apply andb_true_iff in H as [_ H]. now apply nodupb_NoDup.
+  Qed.
+
+  (* the document served at a shared SCPD URL is the document of every service that names the URL *)
+  Lemma pscpd_of_same a b : same_scpd a b = true -> pscpd_of r a = pscpd_of r b.
+  Proof. intros H. apply same_scpd_eq in H as (Hv & Ha & Hc). unfold pscpd_of. now rewrite Hv, Ha, Hc. Qed.
+
+  Lemma find_shared l x :
+    shared_ok urljoin base l = true -> In x l ->
+    exists y, find (fun y => str_eqb (scpd_url urljoin base y) (scpd_url urljoin base x)) l = Some y /\
+              same_scpd y x = true.
+  Proof.
+    induction l as [|z l IH]; cbn [shared_ok find In]; [tauto|]. intros H Hin.
+    apply andb_true_iff in H as [Hz Hl].
+    destruct (str_eqb (scpd_url urljoin base z) (scpd_url urljoin base x)) eqn:E.
+    - exists z. split; [reflexivity|]. destruct Hin as [->|Hin]; [apply same_scpd_refl|].
+      rewrite forallb_forall in Hz. specialize (Hz x Hin). now rewrite E in Hz.
+    - destruct Hin as [->|Hin]; [now rewrite str_eqb_refl in E | now apply IH].
   Qed.
 
   (* the server answers each service's SCPD URL with that service's document *)
   Lemma world_fetch_ok d :
-    wf_dev d = true -> fetch_ok urljoin (world urljoin r base d) base r d.
+    wf_desc d = true -> fetch_ok urljoin (world urljoin r base d) base r d.
   Proof.
-    intros Hwf s Hs. destruct (wf_dev_parts d Hwf) as [_ ND].
-    unfold world. rewrite (find_nodup_key (scpd_url urljoin base) _ s ND Hs). now apply serve_pscpd.
+    intros Hwf s Hs. destruct (wf_desc_parts d Hwf) as [_ Hsh].
+    unfold world. destruct (find_shared _ s Hsh Hs) as (y & -> & Hy).
+    rewrite serve_pscpd by assumption. now apply pscpd_of_same.
   Qed.
 
   Lemma run_build d :
@@ -64,33 +94,33 @@ Section Main.
   Proof. unfold run_def, create_device. now rewrite parse_root_tree. Qed.
 
   Theorem run_ok d :
-    wf_dev d = true -> strict && any_corrupt d = false ->
+    wf_desc d = true -> strict && any_corrupt d = false ->
     run d = FOk (devo_of urljoin float_of_str lower_ext strict probes base d).
   Proof.
-    intros Hwf Hsc. rewrite run_build. destruct (wf_dev_parts d Hwf) as [Ht _].
+    intros Hwf Hsc. rewrite run_build. destruct (wf_desc_parts d Hwf) as [Ht _].
     apply (build_device_ok urljoin float_of_str lower_ext _ strict probes base r); [assumption | now apply world_fetch_ok | assumption].
   Qed.
 
   Theorem mirrors_partial d :
-    wf_dev d = true -> strict && any_corrupt d = false ->
+    wf_desc d = true -> strict && any_corrupt d = false ->
     kf_dup_device_types d = false -> kf_dup_service_types d = false ->
     exists o, run d = FOk o /\ mirror_dev d o = true.
   Proof.
     intros Hwf Hsc K1 K2. eexists. split; [now apply run_ok|].
-    destruct (wf_dev_parts d Hwf) as [Ht _]. now apply mirror_dev_ok.
+    destruct (wf_desc_parts d Hwf) as [Ht _]. now apply mirror_dev_ok.
   Qed.
 
   Theorem strict_refuses d :
-    wf_dev d = true -> strict = true -> any_corrupt d = true ->
+    wf_desc d = true -> strict = true -> any_corrupt d = true ->
     exists e, run d = FRaise e /\ lib_error e = true.
   Proof.
-    intros Hwf Hs Hc. rewrite run_build. destruct (wf_dev_parts d Hwf) as [Ht _].
+    intros Hwf Hs Hc. rewrite run_build. destruct (wf_desc_parts d Hwf) as [Ht _].
     apply (build_device_refused urljoin float_of_str lower_ext _ strict probes base r); [assumption | now apply world_fetch_ok | assumption | assumption].
   Qed.
 
   (* the two clauses, as the correspondence check evaluates them *)
   Theorem c_mirrors_partial d :
-    wf_dev d = true -> kf_dup_device_types d = false -> kf_dup_service_types d = false ->
+    wf_desc d = true -> kf_dup_device_types d = false -> kf_dup_service_types d = false ->
     c_mirrors urljoin float_of_str lower_ext strict probes base d (run d) = true.
   Proof.
     intros Hwf K1 K2. unfold c_mirrors. destruct (strict && any_corrupt d) eqn:E; [reflexivity|].
@@ -98,7 +128,7 @@ Section Main.
   Qed.
 
   Theorem c_strict_refuses_holds d :
-    wf_dev d = true -> c_strict_refuses strict d (run d) = true.
+    wf_desc d = true -> c_strict_refuses strict d (run d) = true.
   Proof.
     intros Hwf. unfold c_strict_refuses. destruct (strict && any_corrupt d) eqn:E; [|reflexivity].
     apply andb_true_iff in E as [E1 E2]. destruct (strict_refuses d Hwf E1 E2) as [e [-> He]]. exact He.
@@ -110,7 +140,7 @@ Lemma faithful_partial :
   forall (urljoin : pystr -> pystr -> pystr) (float_of_str : pystr -> option fl) (lower_ext : N -> N)
          (r : rendering), (forall l, Permutation (r_perm r l) l) ->
   forall (strict : bool) (probes : list pyval) (base : pystr) (d : device_def),
-    wf_dev urljoin float_of_str lower_ext base d = true -> any_corrupt d = false ->
+    wf_desc urljoin float_of_str lower_ext base d = true -> any_corrupt d = false ->
     kf_dup_device_types d = false -> kf_dup_service_types d = false ->
     exists o, run_def urljoin float_of_str lower_ext r strict probes base d = FOk o /\
               mirror_dev urljoin float_of_str lower_ext strict probes base d o = true.
@@ -123,7 +153,7 @@ Lemma nonstrict_degrades_partial :
   forall (urljoin : pystr -> pystr -> pystr) (float_of_str : pystr -> option fl) (lower_ext : N -> N)
          (r : rendering), (forall l, Permutation (r_perm r l) l) ->
   forall (probes : list pyval) (base : pystr) (d : device_def),
-    wf_dev urljoin float_of_str lower_ext base d = true ->
+    wf_desc urljoin float_of_str lower_ext base d = true ->
     kf_dup_device_types d = false -> kf_dup_service_types d = false ->
     exists o, run_def urljoin float_of_str lower_ext r false probes base d = FOk o /\
               mirror_dev urljoin float_of_str lower_ext false probes base d o = true.
@@ -131,3 +161,18 @@ Proof. intros uj fs le r Hp probes base d Hwf K1 K2. now apply mirrors_partial. 
 
 Lemma harness_renderings k ct pad spec empty : forall l, Permutation (r_perm (rendering_of k ct pad spec empty) l) l.
 Proof. intros l. apply perm_of_perm. Qed.
+
+(* the widened domain contains the old one: descriptions in which every service has its own SCPD URL *)
+Lemma distinct_urls_wf_world urljoin base d :
+  nodupb (map (scpd_url urljoin base) (all_services d)) = true ->
+  wf_world urljoin base d = negb (existsb (str_eqb base) (map (scpd_url urljoin base) (all_services d))).
+Proof.
+  unfold wf_world. intros H.
+  assert (E : shared_ok urljoin base (all_services d) = true); [|now rewrite E].
+  induction (all_services d) as [|x l IH]; cbn [shared_ok map nodupb] in *; [reflexivity|].
+  apply andb_true_iff in H as [H1 H2]. rewrite IH by assumption. rewrite andb_true_r.
+  apply forallb_forall. intros y Hy. apply negb_true_iff in H1.
+  destruct (str_eqb (scpd_url urljoin base x) (scpd_url urljoin base y)) eqn:E; [|reflexivity].
+  exfalso. assert (existsb (str_eqb (scpd_url urljoin base x)) (map (scpd_url urljoin base) l) = true); [|congruence].
+  apply existsb_exists. exists (scpd_url urljoin base y). split; [now apply in_map | assumption].
+Qed.
